@@ -80,6 +80,8 @@ def cases(tier):
             for payload in ("scalar", "vector", "series", "vector-series"):
                 for scale in (0, -10, -20):  # voxel sizes x 2^scale: metre-, millimetre- and micrometre-sized samples
                     out.append({"kind": "normalize", "geom": g, "wform": wf, "shape": list(shape), "payload": payload, "scale": scale})
+                for dt in ("float32", "uint8", "uint8->astype(float)"):
+                    out.append({"kind": "normalize", "geom": g, "wform": wf, "shape": list(shape), "payload": payload, "scale": 0, "dtype": dt})
     out.sort(key=lambda c: (c["kind"] != "integrate", int(np.prod(c["shape"])), len(c["shape"])))
     return out
 
@@ -91,7 +93,10 @@ def make_geometry(gname, wform, shape, scale=0):
     dim = len(shape)
     vs = [v * 2.0**scale for v in VS[:dim]]
     vol = float(np.prod(vs))
-    meta = dict(space_dim=dim, num_voxels=list(shape), voxel_size=list(vs))
+    # num_voxels may be the full shape of a data array with trailing time / colour axes
+    # (documented: only the first space_dim entries count); the longer form is used throughout
+    meta = dict(space_dim=dim, num_voxels=list(shape) + [3, 2], voxel_size=list(vs))
+    meta_dims = dict(space_dim=dim, num_voxels=tuple(shape), dimensions=[vs[a] * shape[a] for a in range(dim)])
 
     # caller-owned weight containers: created ONCE and handed to every construction of this
     # geometry (a user builds several geometries from the same porosity map); the reference
@@ -110,7 +115,13 @@ def make_geometry(gname, wform, shape, scale=0):
         return shared[(kind, k)], arr
 
     if gname == "Geometry":
-        return (lambda: darsia.Geometry(**meta)), vol * np.ones(shape)
+        flip = [0]
+
+        def plain():
+            flip[0] += 1
+            return darsia.Geometry(**(meta if flip[0] % 2 else dict(meta_dims, num_voxels=tuple(shape) + (3,))))
+
+        return plain, vol * np.ones(shape)
     if gname == "ExtrudedPorousGeometry":
         pk, dk = wform.split("+")
         _, pref = form(pk, 0)
@@ -344,17 +355,26 @@ def run_normalize(case, r):
     ps = payload_shape(payload)
     full = shape + ps
     n = int(np.prod(full))
-    img = wrap((1.0 + (np.arange(n) % 5)).reshape(full), shape, payload, True, scale)
+    dt = case.get("dtype", "float64")
+    raw = (1.0 + (np.arange(n) % 5)).reshape(full)
+    if dt == "float32":
+        raw = raw.astype(np.float32)
+    elif dt.startswith("uint8"):
+        raw = raw.astype(np.uint8)
+    img = wrap(raw, shape, payload, True, scale)
+    if dt == "uint8->astype(float)":
+        img = img.astype(float)  # keeps its integer 'original_dtype'
     ref = wrap((2.0 + (np.arange(n) % 3) * 0.5).reshape(full), shape, payload, True, scale)
-    cell = f"C03/normalize/{wclass(wform)}/payload={payload}/scale=2^{scale}"
+    cell = f"C03/normalize/{wclass(wform)}/payload={payload}/scale=2^{scale}/dtype={dt}"
     g = fresh()
     before = digest(img), digest(ref)
     out = g.normalize(img, ref)
     want = np.asarray(fresh().integrate(ref), dtype=float)
     got = np.asarray(fresh().integrate(out), dtype=float)
-    r.check(got.shape == want.shape and bool(np.all(np.abs(got - want) <= 1e-12 * np.abs(want))), cell, "after normalisation the image and the reference have equal integrals, per time step and component (relative 1e-12)", got=got, want=want)
+    rt = 1e-12 if dt != "float32" else 1e-6
+    r.check(got.shape == want.shape and bool(np.all(np.abs(got - want) <= rt * np.abs(want))), cell, "after normalisation the image and the reference have equal integrals, per time step and component (relative 1e-12)", got=got, want=want)
     out2, ratio = fresh().normalize(img, ref, return_ratio=True)
-    r.check(np.array_equal(out2.img, out.img) and np.allclose(ratio, np.asarray(fresh().integrate(ref)) / np.asarray(fresh().integrate(img)), rtol=1e-12, atol=0), cell, "return_ratio returns the same image and the ratio of the integrals")
+    r.check(np.array_equal(out2.img, out.img) and np.allclose(ratio, np.asarray(fresh().integrate(ref)) / np.asarray(fresh().integrate(img)), rtol=rt, atol=0), cell, "return_ratio returns the same image and the ratio of the integrals")
     r.check((digest(img), digest(ref)) == before, cell + "/inputs", "normalize leaves both inputs unchanged")
     r.nontriv(case)
     r.outcome((case, got.tolist()))
